@@ -15,6 +15,8 @@ FLAG_FINDINGS = {
     'compl_object_first': 'D11',
     'allow_no_imports': 'D30',
     'defval_empty_bits': 'D33',
+    'plain_type_from_local_tc': 'D35',
+    'augments_forward_oid': 'D36',
 }
 FLAG_WHEN_OPEN = {'pykeywords': 'D17', 'v1_int_index': 'D24'}
 
@@ -38,7 +40,8 @@ def profile_for(findings, backends=('json', 'pysnmp'), **over):
         flags[flag] = (fid in f) and not is_open(fid)
     if 'pysnmp' not in backends:
         # findings that only concern the pysnmp backend do not restrict JSON-only checks
-        for flag in ('plain_type_imports', 'hyphen_imports', 'defval_bits', 'enum_defval_via_type', 'allow_no_imports'):
+        for flag in ('plain_type_imports', 'hyphen_imports', 'defval_bits', 'enum_defval_via_type', 'allow_no_imports',
+                     'plain_type_from_local_tc', 'augments_forward_oid'):
             flags[flag] = True
     flags.update(over)
     return mibgen.profile(**flags)
